@@ -180,6 +180,15 @@ def _workbooks():
                 {'A1': CIRC, 'B1': CIRC, 'D1': 5, 'E1': 6, 'F1': True}))
     out.append(('range-inside-an-unselected-branch', {'A1': False, 'B1': '=IF(@A1,SUM(@C1:C2),1)', 'C1': '=@B1', 'C2': '=@C1'},
                 {'B1': 1, 'C1': 1, 'C2': 1}))
+    # the deciding argument of a guard is an EXPRESSION of the cell on the cycle (not the bare reference): the cycle cannot be avoided
+    out.append(('guard-decided-by-an-expression-of-the-cycle/iferror', {'A1': '=IFERROR(@B1+1,0)', 'B1': '=@A1', 'D1': '=@B1+1'},
+                {'A1': CIRC, 'B1': CIRC, 'D1': ERR}))
+    out.append(('guard-decided-by-an-expression-of-the-cycle/iferror-sign', {'A1': '=IFERROR(-@B1,"none")', 'B1': '=@A1', 'D1': '=@B1+1'},
+                {'A1': CIRC, 'B1': CIRC, 'D1': ERR}))
+    out.append(('guard-decided-by-an-expression-of-the-cycle/if-iserror', {'A1': '=IF(ISERROR(@B1),1,@B1)', 'B1': '=@A1', 'D1': '=@B1+1'},
+                {'A1': CIRC, 'B1': CIRC, 'D1': ERR}))
+    out.append(('guard-decided-by-an-expression-of-the-cycle/if-isnumber', {'A1': '=IF(ISNUMBER(@B1),@B1,7)', 'B1': '=@A1*2', 'D1': '=@B1+1'},
+                {'A1': CIRC, 'B1': CIRC, 'D1': ERR}))
     out.append(('two-independent-cycles', {'A1': '=@B1', 'B1': '=@A1', 'C1': '=@D1', 'D1': '=@C1', 'E1': 1, 'F1': '=@E1+1'},
                 {'A1': CIRC, 'B1': CIRC, 'C1': CIRC, 'D1': CIRC, 'E1': 1, 'F1': 2}))
     return out
